@@ -45,9 +45,20 @@ pub struct Ctx {
     pub sites: std::collections::HashMap<String, std::sync::Arc<Vec<crate::faultgen::SiteGroup>>>,
     pub c06_layout: Option<std::sync::Arc<crate::c06::Layout>>,
     pub rotation: Option<std::sync::Arc<Vec<usize>>>,
+    pub c07_sweep: Option<std::sync::Arc<Vec<crate::c07::SweepItem>>>,
 }
 
 impl Ctx {
+    /// A fixture by name: from the corpus, or a synthesized workbook regenerated from its name
+    /// (so that a replay file of another seed still finds its input).
+    pub fn fixture(&mut self, name: &str) -> Option<Fixture> {
+        if let Some(f) = crate::corpus::find(&self.corpus, name) {
+            return Some(f.clone());
+        }
+        let f = crate::synth::make(name)?;
+        self.corpus.push(f.clone());
+        Some(f)
+    }
     /// The order in which C07/C08 runs visit the corpus: every fixture at least once per
     /// round, feature-rich ones (tables, merged regions, VBA, many sheets) several times, so
     /// that the caches and second access paths only they have get a fair share of histories.
